@@ -368,6 +368,33 @@ def _set_mutations(m: S.SearchModel, name: str) -> list[tuple[ast.AST, str, list
     return out
 
 
+def start_filters(m: S.SearchModel, subj: str, own: list[str]) -> list[tuple[ast.AST, str, str]]:
+    """[(condition, ok | violation | undecided, detail)] for the conditions of a filtered copy of the subject's sub-tree the worklist
+    starts from (`[n for n in own if c]`): every node of the sub-tree (but the parent identifier of a 'sub modules of' subject) must
+    pass.  A node set computed from the filters' identifiers that takes nodes out is positive evidence of a violation."""
+    out: list[tuple[ast.AST, str, str]] = []
+    for cond, var in m.worklist_filters:
+        flag_ = atom(f"bool({subj}.{S.PARENT_FLAG})")
+        is_parent_ = S.to_formula(ast.Compare(left=ast.Name(id=var, ctx=ast.Load()), ops=[ast.Eq()], comparators=[ast.Attribute(value=ast.Name(id=subj, ctx=ast.Load()), attr=S.NODE_ATTR, ctx=ast.Load())]), m.subst)
+        premise_ = f_and([f_or([atom(f"{var} in {o}") for o in own]), f_not(f_and([flag_, is_parent_]))] + [f_not(atom(f"{var} in {v}")) for v in m.visited_sets])
+        kept = S.conds_formula([(cond, True)], m.subst)
+        try:
+            ok_ = _implies_for_some(premise_, kept, sorted(a for a in atoms_of(kept) if a not in atoms_of(premise_) and var not in a))
+        except AnalysisError:
+            ok_ = False
+        if ok_:
+            out.append((cond, "ok", f"the filter `{norm(cond)}` of the start list keeps every node of `{own[0]}` (but the parent identifier of a 'sub modules of' subject)"))
+            continue
+        sets = [a[len(var) + 4:] for a in sorted(atoms_of(kept)) if a.startswith(f"{var} in ")]
+        evidence = next((x for x in sets if x.isidentifier() and x not in _known_sets(m) | set(own) and (prov := S.provenance(m, ast.Name(id=x, ctx=ast.Load()))) and all(l_ in ("const", "derived") or l_.startswith("filter:") for l_ in prov)), None)
+        evidence = evidence or next((x for x in sets if x in m.parent_id_sets), None)
+        if evidence is not None:
+            out.append((cond, "violation", f"the worklist starts from the nodes of `{own[0]}` that satisfy `{norm(cond)}`: nodes of the subject's own sub-tree that are in `{evidence}` (computed from the identifiers of the rule's modules) are never examined, so their imports are never reported"))
+        else:
+            out.append((cond, "undecided", f"the worklist starts from the nodes of `{own[0]}` that satisfy `{norm(cond)}`, and the model cannot show that every node of the subject's sub-tree does"))
+    return out
+
+
 def _own_subtree_expanded(repo: Repo, res: Result, m: S.SearchModel, subj: str, own: list[str], exc: list[str]) -> int:
     """A named module stands for itself and all its descendants - as a *subject* too: every node of the subject's own sub-tree is
     expanded (its imports are looked at), whatever else it belongs to.  The test that keeps excluded objects from being expanded
@@ -379,6 +406,14 @@ def _own_subtree_expanded(repo: Repo, res: Result, m: S.SearchModel, subj: str, 
     fi = m.fi
     n = 0
     single = S._single_assignments(fi.node)
+    # a start list that is a filtered copy of the sub-tree must keep every node that has to be expanded
+    for cond, status, detail in start_filters(m, subj, own):
+        n += 1
+        key_ = f"{fi.relpath}::{getattr(fi, 'shown', fi.qualname)}::the start list keeps every node of the subject's sub-tree"
+        if status == "undecided":
+            res.undecide("C01.S", key_, detail, where(fi, cond))
+        else:
+            res.add("C01.S", key_, status == "ok", detail, where(fi, cond), kind="dominance")
     for c in (m.neighbour_calls or [m.neighbour_call]):
         g = m.guard_of(c)
         pop = m.popped
@@ -581,7 +616,13 @@ def run_closure(repo: Repo, res: Result, rule_id: str = "C03.R1") -> int:
         n += 1
         ok = bool(m.worklist_sources) and all(s in own for s in m.worklist_sources)
         anchor = m.worklist_inits[0] if m.worklist_inits else m.loop
-        res.add(rule_id, repo.key(fi, anchor) + " [worklist start]", ok, f"worklist starts from {S.SUBMODULES}(graph, {subj})" if ok else f"worklist starts from {m.worklist_sources}, not from the subject's subtree `{own[0]}`", where(fi, anchor), kind="structural")
+        bad_filter = next((f_ for f_ in start_filters(m, subj, own) if f_[1] != "ok"), None) if ok else None
+        if bad_filter is not None and bad_filter[1] == "undecided":
+            res.undecide(rule_id, repo.key(fi, anchor) + " [worklist start]", bad_filter[2], where(fi, anchor))
+        elif bad_filter is not None:
+            res.add(rule_id, repo.key(fi, anchor) + " [worklist start]", False, bad_filter[2], where(fi, anchor), kind="structural")
+        else:
+            res.add(rule_id, repo.key(fi, anchor) + " [worklist start]", ok, f"worklist starts from {S.SUBMODULES}(graph, {subj})" if ok else f"worklist starts from {m.worklist_sources}, not from the subject's subtree `{own[0]}`", where(fi, anchor), kind="structural")
         n += 1
         if pushes:
             in_own = [atom(f"{m.popped} in {o}") for o in own]
